@@ -16,16 +16,16 @@ static long n_eval, n_nontrivial, n_cfg, n_local, n_virtual, n_remote, n_hack, n
 static h_set distinct_out;
 
 /* ---- configuration pools ---- */
-static const char *P_locals[] = { "a.com", "B.ORG" };
-static const char *P_vdoms[] = { "u@a.com:t1", "A.com:t2", ".a.com:t3", ".com:t4", ":t5", "b.org:", "x.b.org:", ".b.org:t6" };
-static const char *P_hack[] = { "a.com", "b.org" };
+static const char *P_locals[] = { "a.com", "Z.ORG" };
+static const char *P_vdoms[] = { "u@a.com:t1", "A.com:t2", ".a.com:t3", ".com:t4", ":t5", "z.org:", "x.z.org:", ".z.org:t6" };
+static const char *P_hack[] = { "a.com", "z.org" };
 static const char *P_noat[] = { "me.net", "a.com" };
 #define NL 2
 #define NV 8
 #define NH 2
 #define NN 2
-static const char *A_local[] = { "u", "U", "v", "u%b.org", "u%b.org%a.com", "", "u%x@b.org", "u%c.net", "u%", "%b.org", "a.b" };
-static const char *A_suffix[] = { 0, "@a.com", "@A.Com", "@x.a.com", "@y.x.a.com", "@b.org", "@x.b.org", "@c.net", "@a.com@b.org", "@", "@com", "@.com", "@xa.com" };
+static const char *A_local[] = { "u", "U", "v", "u%z.org", "u%z.org%a.com", "", "u%x@z.org", "u%c.net", "u%", "%z.org", "a.b" };
+static const char *A_suffix[] = { 0, "@a.com", "@A.Com", "@x.a.com", "@y.x.a.com", "@z.org", "@x.z.org", "@c.net", "@a.com@z.org", "@", "@com", "@.com", "@xa.com" };
 #define NAL (sizeof A_local / sizeof A_local[0])
 #define NAS (sizeof A_suffix / sizeof A_suffix[0])
 
